@@ -141,7 +141,9 @@ class ProgramGen:
         if k < 0.65:
             return ("abs", self.small_expr(1, allow_dot=False))
         if k < 0.8:
-            return ("idx", self.small_expr(1, allow_dot=False, labels=False), rng.randrange(6))
+            # x(Rn) and @x(Rn); outside position-independent code x may name a label (an absolute address word)
+            lab = not self.f.get("pic") and rng.random() < 0.4
+            return ("idx" if rng.random() < 0.6 else "idxdef", self.small_expr(1, allow_dot=False, labels=lab), rng.randrange(6))
         if self.f.get("pic"):
             # targets inside the program only: a label plus a small number
             lab = self.any_symbol(True)
@@ -292,6 +294,8 @@ def operand_text(op, rng, style=None):
         return "@#" + expr_text(op[1], rng, style=style)
     if k == "idx":
         return expr_text(op[1], rng, 1, "l", True, style) + "(r%d)" % op[2]
+    if k == "idxdef":
+        return "@" + expr_text(op[1], rng, 1, "l", True, style) + "(r%d)" % op[2]
     if k == "rel":
         return expr_text(op[1], rng, style=style)
     if k == "reldef":
